@@ -19,6 +19,7 @@ func init() {
 	vfRegister("VerifC58_transientError", VerifC58_transientError)
 	vfRegister("VerifC58_acceptAfterClose", VerifC58_acceptAfterClose)
 	vfRegister("VerifC58_wakeOnClose", VerifC58_wakeOnClose)
+	vfRegister("VerifC58_slowClose", VerifC58_slowClose)
 }
 
 type c58world struct {
@@ -26,6 +27,9 @@ type c58world struct {
 	open   int // inner connections accepted and not closed
 	maxed  bool
 	closed bool
+	// slowClose: the wrapped conn's Close contains a scheduling point before it takes effect, so the events "slot
+	// released" and "connection closed" are distinguishable
+	slowClose bool
 }
 
 type c58listener struct {
@@ -79,6 +83,11 @@ type c58conn struct {
 }
 
 func (c *c58conn) Close() error {
+	if c.w.slowClose {
+		// the wrapped Close is not instantaneous (TLS close_notify, SO_LINGER, flush): other goroutines run between
+		// the moment it is entered and the moment the connection is really closed
+		vfYield()
+	}
 	if !c.closed {
 		c.closed = true
 		c.w.open--
@@ -290,5 +299,75 @@ func VerifC58_wakeOnClose() {
 		<-done
 	}
 	vfAssert(w.open == n, "the n connections stay open")
+	vfReach("end")
+}
+
+// "At every point ... at most n accepted connections that have not been closed; closing a connection (even several
+// times) frees exactly one slot" when the wrapped Close is NOT atomic: the stub conn's Close has a scheduling point
+// between being entered and taking effect (w.slowClose), so a slot that is handed back before the wrapped connection
+// is really closed lets a waiting Accept push the ghost counter over n (asserted inside the stub Accept).
+// Saturated listener (n 1..2 connections open), 1..2 closer goroutines each closing one of the open connections
+// (choice: the same one or different ones) and one acceptor waiting for a slot: it must get a connection (vfNoDeadlock:
+// a slot that is never freed is a violation). Afterwards main takes the remaining freed slot (two different
+// connections closed) without blocking, and the listener is saturated again (a double close freed one slot only).
+// Two concurrent acceptors + two closers: > 2M schedules at 3 preemptions (measured), out of reach.
+// Added after seeded change C58-F (release before the wrapped Close).
+func VerifC58_slowClose() {
+	vfNoDeadlock()
+	n := 1 + vfChoice("n", 2)
+	w := &c58world{n: n, slowClose: true}
+	ll := LimitListener(&c58listener{w: w}, n)
+	var conns []net.Conn
+	for i := 0; i < n; i++ {
+		c, err := ll.Accept()
+		vfAssert(err == nil, "accept below the limit succeeds")
+		conns = append(conns, c)
+	}
+	ncl := 1 + vfChoice("closers", 2)
+	var target [2]int
+	distinct := 0
+	seen := [2]bool{}
+	for i := 0; i < ncl; i++ {
+		target[i] = vfChoice("which connection", n)
+		if !seen[target[i]] {
+			seen[target[i]] = true
+			distinct++
+		}
+	}
+	done := make(chan int, 4)
+	accepted := 0
+	vfGo(func() {
+		c, err := ll.Accept() // waits for a slot; the stub asserts open <= n when it delivers
+		vfAssert(err == nil && c != nil, "a freed slot yields a connection")
+		accepted++
+		done <- 1
+	})
+	for i := 0; i < ncl; i++ {
+		c := conns[target[i]]
+		vfGo(func() {
+			c.Close()
+			done <- 1
+		})
+	}
+	for i := 0; i < 1+ncl; i++ {
+		<-done
+	}
+	vfAssert(accepted == 1, "the waiting Accept got a connection")
+	vfAssert(w.open == n-distinct+1, "each distinct connection closed once, one accepted")
+	vfAssert(len(ll.(*limitListener).sem) == w.open, "every open connection holds a slot, nothing else does")
+	for i := 1; i < distinct; i++ {
+		var err error
+		blocked := vfBlocks(func() { _, err = ll.Accept() })
+		vfAssert(!blocked && err == nil, "every closed connection freed a slot")
+	}
+	vfAssert(w.open == n, "saturated again")
+	blocked := vfBlocks(func() { ll.Accept() }) // the stub asserts open <= n if this wrongly succeeds
+	vfAssert(blocked, "closing freed exactly one slot per connection: the next Accept blocks")
+	if ncl == 2 && distinct == 1 {
+		vfReach("same-connection-closed-twice")
+	}
+	if distinct == 2 {
+		vfReach("two-connections-closed")
+	}
 	vfReach("end")
 }
